@@ -625,3 +625,11 @@ fn matches() {
 
     assert_eq!(reconstructed, original_data);
 }
+
+#[cfg(ruzstd_verif)]
+impl MatchGeneratorDriver {
+    /// verification hook: the crate-private constructor
+    pub fn verif_new(slice_size: usize, max_slices_in_window: usize) -> Self {
+        Self::new(slice_size, max_slices_in_window)
+    }
+}
